@@ -133,6 +133,22 @@ def _parse(r, out, rc):
     in_cov = False
     err_lines = []
     in_err = False
+    # join TLC's multi-line pretty-printed tuples (PrintT output) into single lines
+    joined, buf, bal = [], None, 0
+    for ln in lines:
+        st0 = ln.strip()
+        if buf is None:
+            if st0.startswith("<<") and st0.count("<<") != st0.count(">>"):
+                buf = [st0]; bal = st0.count("<<") - st0.count(">>")
+            else:
+                joined.append(ln)
+        else:
+            buf.append(st0); bal += st0.count("<<") - st0.count(">>")
+            if bal <= 0:
+                joined.append(" ".join(buf)); buf = None
+    if buf is not None:
+        joined.extend(buf)
+    lines = joined
     for ln in lines:
         s = ln.rstrip("\n")
         m = re.match(r"^(\d+) states generated, (\d+) distinct states found", s)
